@@ -47,10 +47,18 @@ type tcase struct {
 	Start int    `json:"start"` // replay from the offset of event #Start (0 = oldest)
 	Fault string `json:"fault"` // none | cb-error | cb-cancel | store-fail | row-fail
 	At    int    `json:"at"`
+	// Own: the first Own events of the log were published through the replaying bus
+	// itself (so the bus has its own idea of the last offset); the rest were appended
+	// to the store by another writer afterwards.
+	Own int `json:"published_by_this_bus"`
 }
 
 func (t tcase) String() string {
-	return fmt.Sprintf("store=%s batch=%d log=%d start=%d fault=%s@%d", configs[t.Cfg].Name, t.Batch, t.L, t.Start, t.Fault, t.At)
+	s := fmt.Sprintf("store=%s batch=%d log=%d start=%d fault=%s@%d", configs[t.Cfg].Name, t.Batch, t.L, t.Start, t.Fault, t.At)
+	if t.Own > 0 {
+		s += fmt.Sprintf(" own=%d", t.Own)
+	}
+	return s
 }
 
 var errCallback = errors.New("callback failed")
@@ -104,6 +112,8 @@ func (f *faultStreamStore) ReadStream(ctx context.Context, from eventbus.Offset)
 	}
 }
 
+type storedT struct{ I int }
+
 type result struct {
 	Delivered []int
 	Err       string
@@ -131,14 +141,6 @@ func runCase(t tcase) (result, []string) {
 		vrt.MachineryFault("open %s: %v", cfg.Kind, err)
 	}
 	defer hd.Close()
-	var offs []eventbus.Offset
-	for i := 1; i <= t.L; i++ {
-		o, err := hd.Store.Append(bg, &eventbus.Event{Type: "t", Data: json.RawMessage(fmt.Sprintf(`{"i":%d}`, i)), Timestamp: time.Unix(int64(1000+i), 0).UTC()})
-		if err != nil {
-			vrt.MachineryFault("append: %v", err)
-		}
-		offs = append(offs, o)
-	}
 	fs := &faultStore{inner: hd.Store}
 	if t.Fault == "store-fail" {
 		fs.failAt = t.At
@@ -156,10 +158,33 @@ func runCase(t tcase) (result, []string) {
 	}
 	bus := eventbus.New(opts...)
 	res := result{}
-	type storedT struct{ I int }
 	eventbus.Subscribe(bus, func(e storedT) { res.Handler++ })
 	eventbus.Subscribe(bus, func(e *eventbus.StoredEvent) { res.Handler++ })
 	eventbus.Subscribe(bus, func(e eventbus.StoredEvent) { res.Handler++ })
+	// the log: the first Own events published by this very bus, the rest by another writer
+	for i := 1; i <= t.L; i++ {
+		if i <= t.Own {
+			eventbus.Publish(bus, storedT{I: i})
+			continue
+		}
+		if _, err := hd.Store.Append(bg, &eventbus.Event{Type: "t", Data: json.RawMessage(fmt.Sprintf(`{"i":%d}`, i)), Timestamp: time.Unix(int64(1000+i), 0).UTC()}); err != nil {
+			vrt.MachineryFault("append: %v", err)
+		}
+	}
+	var offs []eventbus.Offset
+	{
+		all, _, err := hd.Store.Read(bg, eventbus.OffsetOldest, 0)
+		if err != nil {
+			vrt.MachineryFault("read back: %v", err)
+		}
+		for _, e := range all {
+			offs = append(offs, e.Offset)
+		}
+		if len(offs) < t.L && t.Start > len(offs) {
+			return res, nil // the store cannot even list its log in one read (durable-streams chunking): other cases cover it
+		}
+	}
+	fs.reads, fs.appends, res.Handler = 0, 0, 0
 	ctx, cancel := context.WithCancel(bg)
 	defer cancel()
 	from := eventbus.OffsetOldest
@@ -284,14 +309,19 @@ func cases(thorough bool) []tcase {
 			for L := 0; L <= maxL; L++ {
 				for s := 0; s <= L; s++ {
 					want := L - s
-					l = append(l, tcase{ci, b, L, s, "none", 0})
+					l = append(l, tcase{Cfg: ci, Batch: b, L: L, Start: s, Fault: "none"})
+					if cfg.Kind == "memory" || cfg.Kind == "sqlite" || cfg.Kind == "sqlite-batch2" {
+						for own := 1; own <= L; own++ {
+							l = append(l, tcase{Cfg: ci, Batch: b, L: L, Start: s, Fault: "none", Own: own})
+						}
+					}
 					for k := 1; k <= want; k++ {
-						l = append(l, tcase{ci, b, L, s, "cb-error", k}, tcase{ci, b, L, s, "cb-cancel", k})
+						l = append(l, tcase{Cfg: ci, Batch: b, L: L, Start: s, Fault: "cb-error", At: k}, tcase{Cfg: ci, Batch: b, L: L, Start: s, Fault: "cb-cancel", At: k})
 					}
 					for p := 1; p <= want+1; p++ {
-						l = append(l, tcase{ci, b, L, s, "store-fail", p})
+						l = append(l, tcase{Cfg: ci, Batch: b, L: L, Start: s, Fault: "store-fail", At: p})
 						if sqliteCfg {
-							l = append(l, tcase{ci, b, L, s, "row-fail", p})
+							l = append(l, tcase{Cfg: ci, Batch: b, L: L, Start: s, Fault: "row-fail", At: p})
 						}
 					}
 				}
